@@ -6,7 +6,7 @@
                          EQU = \b(?:p1|p2|...)\b               literals
    The matchers below implement exactly these shapes with Python's leftmost,
    first-alternative, non-overlapping finditer semantics. *)
-From YV Require Import PyBase.
+From YV Require Import PyBase Regex.
 
 Section Checks.
   Variable is_alpha : char -> bool.   (* str.isalpha *)
@@ -28,21 +28,6 @@ Section Checks.
   Definition ow (c : option char) : bool :=
     match c with Some x => is_word x | None => false end.
   Definition wb (prev next : option char) : bool := xorb (ow prev) (ow next).
-
-  (* ---- generic finditer over a match function ---- *)
-  Fixpoint finditer_gen (mat : option char -> str -> option nat)
-             (prev : option char) (s : str) (i skip : nat) : list (nat * nat) :=
-    match s with
-    | [] => []
-    | c :: s' =>
-        match skip with
-        | S k => finditer_gen mat (Some c) s' (S i) k
-        | O => match mat prev s with
-               | Some (S m) => (i, S m) :: finditer_gen mat (Some c) s' (S i) m
-               | _ => finditer_gen mat (Some c) s' (S i) 0
-               end
-        end
-    end.
 
   (* literal p at the head of s, \b before if bs, \b after if be *)
   Definition lit_match (p : str) (bs be : bool) (prev : option char) (s : str)
@@ -104,7 +89,10 @@ Section Checks.
   Definition hits (pats : list str) (plain : str) : list (nat * nat) :=
     match pats with
     | [] => []
-    | _ => finditer_gen (alt_match pats) None plain 0 0
+    | _ => map fst (finditer_x
+                      (fun prev s => option_map (fun m => (m, tt))
+                                                (alt_match pats prev s))
+                      plain)
     end.
 
   Definition covered (hs : list (nat * nat)) (i : nat) : bool :=
@@ -225,23 +213,8 @@ Section Checks.
         end
     end.
 
-  Fixpoint equ_iter (pls : list str) (prev : option char) (s : str)
-             (i skip : nat) : list (nat * nat * bool) :=
-    match s with
-    | [] => []
-    | c :: s' =>
-        match skip with
-        | S k => equ_iter pls (Some c) s' (S i) k
-        | O => match equ_match pls prev s with
-               | Some (S m, ok) =>
-                   (i, S m, ok) :: equ_iter pls (Some c) s' (S i) m
-               | _ => equ_iter pls (Some c) s' (S i) 0
-               end
-        end
-    end.
-
   (* create_equation_punct_messages for a list of placeholders *)
   Definition equation_messages (plain : str) (pls : list str) : list message :=
     map (fun x => mk_message plain (fst (fst x)) (snd (fst x)))
-        (filter (fun x => negb (snd x)) (equ_iter pls None plain 0 0)).
+        (filter (fun x => negb (snd x)) (finditer_x (equ_match pls) plain)).
 End Checks.
